@@ -9,3 +9,5 @@ for id in "$@"; do
   echo "$(basename "$P" .patch) $id exit=$rc violations=$n $(echo "$out" | grep -m1 'BUILD-FAILED')"
 done
 git -C /repo checkout -- . 
+# leave the harness binary built against the restored tree
+( cd /verif/harness && CARGO_NET_OFFLINE=true cargo build --release --quiet >/dev/null 2>&1 )
